@@ -139,7 +139,7 @@ func c17Headers(c *c17Case, sessionCookie string) [][2]string {
 	cookieDone := false
 	switch c.HdrClass {
 	case "dups":
-		add("X-Dup", "1", "x-dup", "2", "X-DUP", "three, 3", "Accept-Language", "en", "Accept-Language", "de;q=0.5", "Cache-Control", "no-cache", "Cache-Control", "no-store")
+		add("X-Dup", "1", "x-dup", "2", "X-DUP", "three, 3", "X-dup", "4", "Accept-Language", "en", "Accept-Language", "de;q=0.5", "Cache-Control", "no-cache", "Cache-Control", "no-store")
 	case "unusual":
 		add("X_Under_Score", "u", "x-lower", "l", "X-UPPER", "U", "X.Dot", "d", "X~Tilde!#$%&'*+^|", "t", "X-Empty", "", "X-Spaces", "  padded \t inner  ", "X-Utf8", "caf\xc3\xa9", "X-Punct", `a=b;c="d,e"\f`, "1-Digit", "1")
 	case "hop":
